@@ -464,3 +464,72 @@ def inverse_map_lookup_rule(m, rid):
                        "parenthesised group without testing that it is a key of the map: `x = (F2PY_EXPR_TUPLE_9 + 1)` (a legal identifier) raises "
                        "KeyError, which escapes the parser" % A.text(n), m.loc(g, n))
     return r
+
+
+# =================================================================================================
+# SymbolTables.remove: inside a scope, the child of the current scope is tried before the top-level tables
+# =================================================================================================
+class RemoveOrderClient(F.Client):
+    track = {"$tried", "@scope"}
+    attr_vars = {"self._current_scope": "@scope"}
+
+    def __init__(self):
+        self.bad = []
+
+    def call_raises(self, call, st):
+        if A.text(call.func).endswith(".del_child"):
+            return (("KeyError", st.set("$tried", F.TRUE)),)
+        return ()
+
+    def call_effect(self, call, st):
+        if A.text(call.func).endswith(".del_child"):
+            return (st.set("$tried", F.TRUE),)
+        return (st,)
+
+    def on_stmt(self, stmt, st):
+        if st.get("$tried") == F.TRUE:
+            return
+        t, f_ = F.Flow.truth_vals(st.get("@scope"))
+        if not t:
+            return          # not inside a scope: the top-level tables are the only place to look
+        for fld in ("value", "test", "targets"):
+            v = getattr(stmt, fld, None)
+            for root in (v if isinstance(v, list) else [v]):
+                if isinstance(root, ast.AST) and any(isinstance(x, ast.Attribute) and A.text(x) == "self._symbol_tables" for x in ast.walk(root)):
+                    self.bad.append(stmt)
+
+
+class RemoveOrderFlow(F.Flow):
+    def split_leaf(self, test, st):
+        if isinstance(test, ast.Attribute) and A.dotted(test) in self.c.attr_vars:
+            name = self.c.attr_vars[A.dotted(test)]
+            t, f_ = self.truth_vals(st.get(name))
+            ts = {st.set(name, F.TRUTHY)} if t else set()
+            fs = {st.set(name, F.FALSY)} if f_ else set()
+            return ts, fs
+        return F.Flow.split_leaf(self, test, st)
+
+
+def remove_priority_rule(m, rid):
+    r = RuleResult(rid, "SymbolTables.remove looks among the children of the current scope before the top-level tables (a nested unit that "
+                        "failed to match must not delete an unrelated top-level table of the same name left by an earlier parse)")
+    r.floor = 1
+    k = m.key("SymbolTables", "fparser.two.symbol_table")
+    f = m.method(k, "remove")
+    if f is None:
+        r.error("SymbolTables.remove vanished")
+        return r
+    if not any(A.text(c.func).endswith(".del_child") for c in A.calls(f.node)):
+        r.error("SymbolTables.remove no longer tries the children of the current scope (anchor changed)")
+        return r
+    cl = RemoveOrderClient()
+    fl = RemoveOrderFlow(m, f, cl)
+    fl.run(F.State({"$tried": F.FALSE, "@scope": F.TOP}))
+    r.instances += 1
+    bad = cl.bad[:1]
+    r.ob(not bad, "SymbolTables.remove: inside a scope every access to the top-level tables is preceded by del_child on the current scope")
+    if bad:
+        r.fail("SymbolTables.remove|top-level-first", "SymbolTables.remove consults the top-level tables (`%s`) while a scope is current and before "
+               "trying that scope's children: cleaning up after a nested unit that failed to match deletes an unrelated top-level table of the "
+               "same name" % A.text(bad[0])[:60], m.loc(f, bad[0]))
+    return r
